@@ -113,4 +113,86 @@ theorem rowEq_combine_comm {lk rk : List Col} {l r : Row} (hl : (rcols l).Nodup)
   rw [List.append_assoc, List.append_assoc]
   exact List.Perm.append_left _ List.perm_append_comm
 
+/-! ### algebra of the spec operators -/
+
+theorem innerJoin_comm {lk rk : List Col} {L R : Table} (wfL : RowsWF L) (wfR : RowsWF R) :
+    TableEq (innerJoin lk rk L R) (innerJoin rk lk R L) := by
+  unfold innerJoin
+  refine (TableEq.of_perm (flatMap_filter_map_swap L R (matchesK lk rk) (combine (coalesced lk rk)))).trans ?_
+  refine TableEq.flatMap_congr R _ _ ?_
+  intro r hr
+  have hf : L.filter (fun l => matchesK lk rk l r) = L.filter (matchesK rk lk r) :=
+    List.filter_congr (fun l _ => (matchesK_comm lk rk l r).symm)
+  rw [hf, coalesced_comm lk rk]
+  refine TableEq.map_congr _ _ _ ?_
+  intro l hl
+  obtain ⟨hlL, hm⟩ := List.mem_filter.mp hl
+  rw [matchesK_comm] at hm
+  exact rowEq_combine_comm (wfL l hlL) (wfR r hr) (matchesK_keys hm)
+
+/-- RIGHT join = LEFT join with the two sides exchanged -/
+theorem rightJoin_eq_leftJoin_swapped {lk rk ls : List Col} {L R : Table} (wfL : RowsWF L) (wfR : RowsWF R) :
+    TableEq (rightJoin lk rk ls L R) (leftJoin rk lk ls R L) := by
+  unfold rightJoin leftJoin
+  refine TableEq.flatMap_congr R _ _ ?_
+  intro r hr
+  have hf : L.filter (fun l => matchesK lk rk l r) = L.filter (matchesK rk lk r) :=
+    List.filter_congr (fun l _ => (matchesK_comm lk rk l r).symm)
+  simp only [hf, coalesced_comm lk rk]
+  by_cases he : (L.filter (matchesK rk lk r)).isEmpty
+  · simp only [he, if_true]
+    refine TableEq.single (RowEq.of_core_eq ?_)
+    rw [core_padLeft, core_padRight]
+  · simp only [he, Bool.false_eq_true, if_false]
+    refine TableEq.map_congr _ _ _ ?_
+    intro l hl
+    obtain ⟨hlL, hm⟩ := List.mem_filter.mp hl
+    rw [matchesK_comm] at hm
+    exact rowEq_combine_comm (wfL l hlL) (wfR r hr) (matchesK_keys hm)
+
+/-- the inner join consists of exactly one combined row per matching pair (so duplicate keys multiply) -/
+theorem mem_innerJoin {lk rk : List Col} {L R : Table} {x : Row} :
+    x ∈ innerJoin lk rk L R ↔ ∃ l ∈ L, ∃ r ∈ R, matchesK lk rk l r = true ∧ x = combine (coalesced lk rk) l r := by
+  unfold innerJoin
+  simp only [List.mem_flatMap, List.mem_map, List.mem_filter]
+  constructor
+  · rintro ⟨l, hl, r, ⟨hr, hm⟩, rfl⟩; exact ⟨l, hl, r, hr, hm, rfl⟩
+  · rintro ⟨l, hl, r, hr, hm, rfl⟩; exact ⟨l, hl, r, ⟨hr, hm⟩, rfl⟩
+
+theorem length_innerJoin (lk rk : List Col) (L R : Table) :
+    (innerJoin lk rk L R).length = (L.map (fun l => R.countP (matchesK lk rk l))).sum := by
+  unfold innerJoin
+  induction L with
+  | nil => rfl
+  | cons l L ih => simp [List.flatMap_cons, ih, List.countP_eq_length_filter]
+
+/-- LEFT join = INNER join plus one null-padded row for every left row without a partner -/
+theorem leftJoin_eq_inner_append_unmatched (lk rk rs : List Col) (L R : Table) :
+    (leftJoin lk rk rs L R).Perm
+      (innerJoin lk rk L R ++
+        (L.filter (fun l => R.all (fun r => !matchesK lk rk l r))).map (padRight (coalesced lk rk) rs)) := by
+  unfold leftJoin innerJoin
+  have h : ∀ l, (let ms := R.filter (matchesK lk rk l);
+      if ms.isEmpty then [padRight (coalesced lk rk) rs l] else ms.map (combine (coalesced lk rk) l)) =
+      (R.filter (matchesK lk rk l)).map (combine (coalesced lk rk) l) ++
+        (if R.all (fun r => !matchesK lk rk l r) then [padRight (coalesced lk rk) rs l] else []) := by
+    intro l
+    by_cases he : R.filter (matchesK lk rk l) = []
+    · have : R.all (fun r => !matchesK lk rk l r) = true := by
+        rw [List.all_eq_true]; intro r hr
+        have := (List.filter_eq_nil_iff.mp he) r hr
+        simpa using this
+      simp [he, this]
+    · have : R.all (fun r => !matchesK lk rk l r) = false := by
+        rw [Bool.eq_false_iff]
+        intro hall
+        rw [List.all_eq_true] at hall
+        apply he
+        rw [List.filter_eq_nil_iff]
+        intro r hr; have := hall r hr; simpa using this
+      simp [he, this]
+  simp only [h]
+  refine (flatMap_append_perm L _ _).trans ?_
+  rw [flatMap_ite_single]
+
 end Rel
